@@ -162,44 +162,52 @@ def stage_macro(pid, tier, seed, d, binp, st, ctx):
     if not rows:
         open(os.path.join(d, "MacroTable.out"), "w").write(out)
         raise ctx["ToolError"]("MacroTable generation failed")
-    cd = os.path.join(d, "corpus")
-    shutil.rmtree(cd, ignore_errors=True)
-    os.makedirs(cd)
-    gen_corpus.write_crate(rows, cd)
-    shutil.copy2("/verif/harness/Cargo.lock", os.path.join(cd, "Cargo.lock"))
     env = dict(os.environ)
     env.update({"CARGO_TARGET_DIR": "/verif/harness/target_corpus", "CARGO_NET_OFFLINE": "true",
                 "RUSTFLAGS": "--cfg rsactor_verif --check-cfg cfg(rsactor_verif)"})
     t0 = time.time()
-    p = subprocess.run(["cargo", "check", "--offline", "--bins", "--keep-going", "--message-format=json"],
-                       cwd=cd, env=env, text=True, capture_output=True, timeout=3600)
-    failed = set()
-    for line in p.stdout.splitlines():
-        if not line.startswith("{"):
-            continue
-        try:
-            m = json.loads(line)
-        except ValueError:
-            continue
-        if m.get("reason") == "compiler-message" and m.get("message", {}).get("level") == "error":
-            failed.add(m["target"]["name"])
-    if "runner" in failed or ("error: could not compile" not in p.stderr and p.returncode != 0 and not failed):
-        open(os.path.join(d, "corpus_check.err"), "w").write(p.stderr[-20000:])
-        raise ctx["ToolError"]("corpus crate could not be checked (see corpus_check.err)")
-    compiled = [i for i in range(len(rows)) if ("r%d" % i) not in failed]
-    ctx["log"]("macro corpus: %d programs, %d compile, %d rejected by the compiler (%.0fs)" %
-               (len(rows), len(compiled), len(rows) - len(compiled), time.time() - t0))
-    gen_corpus.write_runner(rows, compiled, cd)
-    p = subprocess.run(["cargo", "run", "--offline", "--bin", "runner"], cwd=cd, env=env, text=True,
-                       capture_output=True, timeout=3600)
-    if p.returncode != 0:
-        open(os.path.join(d, "corpus_run.err"), "w").write(p.stderr[-20000:] + "\n" + p.stdout[-5000:])
-        raise ctx["ToolError"]("corpus runner failed (see corpus_run.err)")
+    all_rows = rows
     obs = {}
-    for line in p.stdout.splitlines():
-        if line.startswith("ROW "):
-            _, i, js = line.split(" ", 2)
-            obs[int(i)] = json.loads(js)
+    ncompiled = 0
+    SHARD = 600          # cargo needs several GB to plan a package with thousands of bin targets
+    for base in range(0, len(all_rows), SHARD):
+        rows = all_rows[base:base + SHARD]
+        cd = os.path.join(d, "corpus")
+        shutil.rmtree(cd, ignore_errors=True)
+        os.makedirs(cd)
+        gen_corpus.write_crate(rows, cd)
+        shutil.copy2("/verif/harness/Cargo.lock", os.path.join(cd, "Cargo.lock"))
+        p = subprocess.run(["cargo", "check", "--offline", "--bins", "--keep-going", "--message-format=json"],
+                           cwd=cd, env=env, text=True, capture_output=True, timeout=3600)
+        failed = set()
+        for line in p.stdout.splitlines():
+            if not line.startswith("{"):
+                continue
+            try:
+                m = json.loads(line)
+            except ValueError:
+                continue
+            if m.get("reason") == "compiler-message" and m.get("message", {}).get("level") == "error":
+                failed.add(m["target"]["name"])
+        if "runner" in failed or ("error: could not compile" not in p.stderr and p.returncode != 0 and not failed):
+            open(os.path.join(d, "corpus_check.err"), "w").write("rc=%s\n" % p.returncode + p.stderr[-20000:])
+            raise ctx["ToolError"]("corpus crate could not be checked (see corpus_check.err)")
+        compiled = [i for i in range(len(rows)) if ("r%d" % i) not in failed]
+        ncompiled += len(compiled)
+        gen_corpus.write_runner(rows, compiled, cd)
+        p = subprocess.run(["cargo", "run", "--offline", "--bin", "runner"], cwd=cd, env=env, text=True,
+                           capture_output=True, timeout=3600)
+        if p.returncode != 0:
+            open(os.path.join(d, "corpus_run.err"), "w").write(p.stderr[-20000:] + "\n" + p.stdout[-5000:])
+            raise ctx["ToolError"]("corpus runner failed (see corpus_run.err)")
+        for line in p.stdout.splitlines():
+            if line.startswith("ROW "):
+                _, i, js = line.split(" ", 2)
+                obs[base + int(i)] = json.loads(js)
+    rows = all_rows
+    compiled = list(range(ncompiled))
+    ctx["log"]("macro corpus: %d programs, %d compile, %d rejected by the compiler (%.0fs)" %
+               (len(rows), ncompiled, len(rows) - ncompiled, time.time() - t0))
     tp = os.path.join(d, "macro_trace.ndjson")
     with open(tp, "w") as f:
         for i, row in enumerate(rows):
